@@ -363,6 +363,39 @@ def index_probe(cases):
     return out
 
 
+def product_probe(cases):
+    """MPS.from_product_state with integer local states: legs / qtotal / block of every tensor and the total charge"""
+    from tenpy.networks.mps import MPS
+    out = []
+    for c in cases:
+        sites = [G.make_site(k) for k in c['kinds']]
+        L = len(sites)
+        fin = c['bc'] != 'infinite'
+        psi = MPS.from_product_state(sites, [int(x) for x in c['p']], bc=c['bc'], permute=False,
+                                     chargeL=c['chargeL'], unit_cell_width=L, understood_shift_symmetry=True)
+        ci = sites[0].leg.chinfo
+        srows = []
+        for st, pidx in zip(sites, c['p']):
+            leg = st.leg
+            q, pos = leg.get_qindex(int(pidx))
+            sizes = [int(b - a) for a, b in zip(leg.slices[:-1], leg.slices[1:])]
+            srows.append([sizes, [[int(y) for y in x] for x in leg.charges], int(leg.qconj), int(q), int(pos)])
+        brows = []
+        for B in psi._B:
+            assert B.get_leg_labels() == ['vL', 'p', 'vR'], B.get_leg_labels()
+            vL, vR = B.get_leg('vL'), B.get_leg('vR')
+            qd = [[int(y) for y in r] for r in B._qdata]
+            brows.append([[[int(y) for y in x] for x in vL.charges], int(vL.qconj), [int(x) for x in np.diff(vL.slices)],
+                          [[int(y) for y in x] for x in vR.charges], int(vR.qconj), [int(x) for x in np.diff(vR.slices)],
+                          [int(x) for x in B.qtotal], qd,
+                          [float(abs(x)) for x in B.to_ndarray().reshape(-1)]])
+        total = [int(x) for x in (psi.get_total_charge(only_physical_legs=True) if c['bc'] == 'finite'
+                                  else psi.get_total_charge())]
+        out.append({'mod': [int(x) for x in ci.mod], 'sites': srows, 'B': brows, 'total': total,
+                    'chi': [int(x) for x in psi.chi], 'form': [list(map(float, f)) if f is not None else None for f in psi.form]})
+    return out
+
+
 def main(argv):
     import json
     payload = json.load(open(argv[1]))
@@ -371,6 +404,8 @@ def main(argv):
         out = G.site_info(payload['kinds'])
     elif kind == 'index':
         out = index_probe(payload['cases'])
+    elif kind == 'product':
+        out = product_probe(payload['cases'])
     else:
         kinds = set()
 
